@@ -252,6 +252,15 @@ type helperCtx struct {
 	// helper's phi-valued result may yield, an operand that flows in over a barrier edge
 	// is skipped (phiEdgeBlocked).  Off for every rule that goes through reach()/unguarded().
 	edgePhi bool
+	// cuts counts the summaries refused because of the depth bound or a busy
+	// activation: a negative verdict reached while one was refused is not memoised
+	// (it may only reflect the cut-off, and the same helper asked at top level
+	// could be summarised in full)
+	cuts int
+	// cutNeg: the shallowest depth at which such a cut-off negative was computed; it
+	// is reused at that depth or deeper and recomputed when asked nearer the top
+	cutNegA map[helperKey]int
+	cutNegI map[helperKey]int
 }
 
 // inHelper rewrites a condition met in function f's body into the caller's terms.
@@ -359,18 +368,28 @@ func (hc *helperCtx) alwaysCrosses(h *ssa.Function, bars []Barrier, args []*Expr
 	switch hc.always[k] {
 	case 1:
 		return true
-	case 2, 3:
+	case 2:
+		return false
+	case 3:
+		hc.cuts++
 		return false
 	}
 	if hc.depth >= 3 {
+		hc.cuts++
 		return false
 	}
 	if _, busy := hc.act[h]; busy {
+		hc.cuts++
+		return false
+	}
+	if d, ok := hc.cutNegA[k]; ok && hc.depth+1 >= d {
+		hc.cuts++
 		return false
 	}
 	hc.always[k] = 3
 	hc.depth++
 	hc.act[h] = args
+	cuts0 := hc.cuts
 	r := reachH(entryPoint(h), bars, nil, hc)
 	delete(hc.act, h)
 	hc.depth--
@@ -386,6 +405,12 @@ func (hc *helperCtx) alwaysCrosses(h *ssa.Function, bars []Barrier, args []*Expr
 		if os.Getenv("SDNSVERIF_DEBUG_HELPER") != "" {
 			fmt.Fprintf(os.Stderr, "DEBUG alwaysCrosses %s bars=%d\n", h.Name(), len(bars))
 		}
+	} else if hc.cuts != cuts0 {
+		delete(hc.always, k)
+		if hc.cutNegA == nil {
+			hc.cutNegA = map[helperKey]int{}
+		}
+		hc.cutNegA[k] = hc.depth + 1
 	} else {
 		hc.always[k] = 2
 	}
@@ -399,18 +424,28 @@ func (hc *helperCtx) resultImplies(h *ssa.Function, idx int, want bool, bars []B
 	switch hc.implies[k] {
 	case 1:
 		return true
-	case 2, 3:
+	case 2:
+		return false
+	case 3:
+		hc.cuts++
 		return false
 	}
 	if hc.depth >= 3 {
+		hc.cuts++
 		return false
 	}
 	if _, busy := hc.act[h]; busy {
+		hc.cuts++
+		return false
+	}
+	if d, ok := hc.cutNegI[k]; ok && hc.depth+1 >= d {
+		hc.cuts++
 		return false
 	}
 	hc.implies[k] = 3
 	hc.depth++
 	hc.act[h] = args
+	cuts0 := hc.cuts
 	defer func() { hc.depth--; delete(hc.act, h) }()
 	base := reachH(entryPoint(h), bars, nil, hc)
 	ok := true
@@ -435,6 +470,12 @@ func (hc *helperCtx) resultImplies(h *ssa.Function, idx int, want bool, bars []B
 		if os.Getenv("SDNSVERIF_DEBUG_HELPER") != "" {
 			fmt.Fprintf(os.Stderr, "DEBUG resultImplies %s idx=%d want=%v nret=%d\n", h.Name(), idx, want, nret)
 		}
+	} else if hc.cuts != cuts0 {
+		delete(hc.implies, k)
+		if hc.cutNegI == nil {
+			hc.cutNegI = map[helperKey]int{}
+		}
+		hc.cutNegI[k] = hc.depth
 	} else {
 		hc.implies[k] = 2
 	}
